@@ -70,6 +70,8 @@ type c12Model struct {
 	// refusedNow: the command being checked did everything but its last step (the key service
 	// refused the destroy), so its effects on the authority are those of a completed command.
 	refusedNow bool
+	// namesBefore: the key names the key service knew before the command being checked
+	namesBefore map[string]bool
 }
 
 // hugeSerial draws a serial number beyond 64 bits (legal: serials are arbitrary-precision).
@@ -125,6 +127,10 @@ func runC12(r *core.Run) {
 		}
 		r.Advance(delta)
 		before := a.CertObjects()
+		m.namesBefore = map[string]bool{}
+		for _, k := range a.KeyNames() {
+			m.namesBefore[k] = true
+		}
 		m.stamps[a.Now.Unix()] = true
 		// certificates the authority serves per known key name before the command (to recognise a
 		// command that "succeeds" while keeping a stale certificate)
@@ -236,6 +242,11 @@ func runC12(r *core.Run) {
 func c12Check(r *core.Run, a *Authority, m *c12Model, cfg Config, made string, ok, overridden bool, f Flags, before map[string][]byte, desc string, rootStart *time.Time) {
 	where := fmt.Sprintf("%s after %s", cfg, desc)
 	for _, k := range a.KeyNames() {
+		if !m.allNames[k] && !ok {
+			// a key that appears during a command that reported failure is that command's leftover
+			// (the operator was told); it is not held against the commands that follow
+			m.excused[k] = true
+		}
 		m.allNames[k] = true
 	}
 	// no-clobber without --overwrite
@@ -372,6 +383,11 @@ func c12Check(r *core.Run, a *Authority, m *c12Model, cfg Config, made string, o
 	}
 	if ok && made == "boot" {
 		// a successful bootstrap starts a new epoch
+		// (keys of earlier epochs that a re-bootstrap leaves alive are not this property's reading
+		// of "the current primary": only keys that appear from here on are held against it)
+		for n := range m.namesBefore {
+			m.excused[n] = true
+		}
 		m.everPrimary, m.prevSerial = map[string][]byte{}, nil
 		m.keysWiped = false
 		*rootStart = root.NotBefore
@@ -414,6 +430,10 @@ func c12Check(r *core.Run, a *Authority, m *c12Model, cfg Config, made string, o
 		// "valid ... from its creation time": NotBefore is the timestamp of the command that created
 		// the certificate. With --keep_going a command may legitimately keep a certificate created
 		// by an earlier command, so any command timestamp of the history is accepted.
+		if !f.KeepGoing && cert.NotBefore.Unix() != a.Now.Unix() {
+			// without --keep_going the certificate is this command's own
+			r.Fail("signing-profile", "not-before-this-command/"+made, "%s: signing certificate NotBefore %v is not this command's timestamp %v", where, cert.NotBefore.UTC(), a.Now.UTC())
+		}
 		if !m.stamps[cert.NotBefore.Unix()] {
 			r.Fail("signing-profile", "not-before/"+made, "%s: signing certificate NotBefore %v is not the timestamp of any command of the history (this command: %v)", where, cert.NotBefore.UTC(), a.Now.UTC())
 		}
@@ -433,6 +453,18 @@ func c12Check(r *core.Run, a *Authority, m *c12Model, cfg Config, made string, o
 	m.primary = primary
 	if ss != nil {
 		m.prevSerial = ss
+	}
+	// ... and no key the key service knows of, other than the primary and the root key, signs after
+	// a command that succeeded (a replaced key kept under another name, say)
+	if ok {
+		for _, name := range core.SortedKeys(m.allNames) {
+			if _, was := m.everPrimary[name]; was || name == primary || m.excused[name] || name == "root" || strings.Contains(name, "/cryptoKeys/root/") {
+				continue
+			}
+			if v.CanSign(name) {
+				r.Fail("non-primary-signs", "stray-key/"+made, "%s: key %q, which is neither the primary (%q) nor the root key, can sign", where, name, primary)
+			}
+		}
 	}
 	// only the current primary signs, among the keys that have been primary in this epoch
 	for _, name := range core.SortedKeys(m.everPrimary) {
